@@ -49,14 +49,18 @@ def check(ctx, case):
 		from gambit.cli.common import get_file_id
 		return [f'c16.label {hx(case["path"].encode())} {hx(get_file_id(case["path"]).encode())}'], []
 	qs = [w.genomes[i] for i in case['q']]
+	if case.get('namesake_queries'):
+		# a query side that contains two different genomes with the same file name (= the same label), labels not in sorted order
+		qs = [(g['namesake'] if f else g) for g, f in zip(qs, case['namesake_queries'])]
 	rs = [w.genomes[i] for i in case['r']] if case['rkind'] not in ('db', 'square') else None
 	if rs is not None and case.get('namesake_refs'):
 		# references that share their file name (hence their label) with a query but are different genomes
 		rs = [(g['namesake'] if f else g) for g, f in zip(rs, case['namesake_refs'])]
 	out = w.sc.path(suffix='.csv')
 	args = []
+	dbdir = w.dbdir2 if case.get('db2') else w.dbdir
 	if case['rkind'] == 'db':
-		args += ['-d', w.dbdir]
+		args += ['-d', dbdir]
 	args += ['dist', '-o', out, '--no-progress']
 	if case.get('explicit'):
 		args += ['-k', w.spec[0], '-p', w.spec[1]]
@@ -88,7 +92,8 @@ def check(ctx, case):
 		rk, rtok = 's', ids
 	elif case['rkind'] == 'db':
 		args += ['--use-db']
-		dbs = w.db_sigs()
+		from gambit.sigs import load_signatures as _ls
+		dbs = _ls(dbdir / 'ref.gs')
 		rk, rtok = 's', list(dbs.ids)
 	else:
 		args += ['--square']
@@ -167,8 +172,14 @@ def run(ctx):
 						flags = [rng.random() < 0.7 for _ in r]
 						# a list file has one base directory: all-or-nothing there
 						ns = flags if rkind == 'files' else [flags[0]] * len(r)
+					nq = None
+					if qkind == 'files' and rng.random() < 0.4:
+						i = rng.randrange(len(q))
+						q = q[:i + 1] + [q[i]] + q[i + 1:]
+						nq = [False] * len(q)
+						nq[i + rng.randint(0, 1)] = True
 					sub({'kind': 'dist', 'qkind': qkind, 'rkind': rkind, 'q': q, 'r': r, 'explicit': explicit, 'cores': rng.choice([None, 1, 2, 4]),
-					     'blank': rng.random() < 0.3, 'namesake_refs': ns, 'decoy_cwd': rng.random() < 0.5}, 'dist')
+					     'blank': rng.random() < 0.3, 'namesake_refs': ns, 'namesake_queries': nq, 'decoy_cwd': rng.random() < 0.5, 'db2': rng.random() < 0.5}, 'dist')
 	finally:
 		if _w is not None:
 			_w.cleanup()
